@@ -13,7 +13,7 @@ EXTENDS Naturals, Sequences, ValGen, RefRead, RefPrint, Json, TLC
 CONSTANT MaxVals
 
 \* whitespace (space, tab, CR, LF, form feed) and line comments, alone and mixed
-Trivia == << <<SP>>, <<TAB>>, <<CR>>, <<LF>>, <<FF>>, <<SEMI, 99, LF>>, <<CR, LF, SP, SP>>, <<SP, SEMI, 40, 34, LF, FF, TAB>> >>
+Trivia == << <<SP>>, <<TAB>>, <<CR>>, <<LF>>, <<FF>>, <<SEMI, 99, LF>>, <<CR, LF, SP, SP>>, <<SP, SEMI, 40, 34, LF, FF, TAB>>, <<SEMI, 120, CR, 121, LF>> >>
 \* what may follow the last value: nothing, trivia, or a final comment without newline
 Final == << <<>>, <<SP>>, <<LF>>, <<FF>>, <<SEMI, 101, 110, 100>>, <<SP, SEMI>> >>
 \* what may precede the first value
